@@ -1886,6 +1886,10 @@ func RunFrame(frame *py.Frame) (res py.Object, err error) {
 	//         save_exc_state(tstate, f);
 	// }
 
+	// A generator frame that yielded inside an except handler goes on
+	// handling that exception when it is resumed
+	vm.exc = frame.Exc
+
 	if int(frame.Lasti) >= len(frame.Code.Code) {
 		return nil, py.ExceptionNewf(py.SystemError, "vm: instruction out of range - code most likely finished already")
 	}
@@ -2052,6 +2056,7 @@ func RunFrame(frame *py.Frame) (res py.Object, err error) {
 	}
 
 fast_yield:
+	frame.Exc = vm.exc
 	// FIXME
 	// if (co->co_flags & CO_GENERATOR) {
 	//     /* The purpose of this block is to put aside the generator's exception
